@@ -61,18 +61,52 @@ let run_case (case : string) : string =
   let is_async = (String.length head > 6 && String.sub head (String.length head - 6) 6 = "_async") in
   let classes = ref [] in
   let registered : (int, bool) Hashtbl.t = Hashtbl.create 8 in
+  (* waker identities (ObsWaker.wstep, sync flavour): every subscriber is polled with its current
+     waker object; identities are numbered in order of creation - one per new subscriber, and a fresh
+     one whenever a poll sits on every fourth call position (as the harness does) *)
+  let w_ids = ref [] in
+  let next_wid = ref 0 in
+  let cur_wid : (int, int) Hashtbl.t = Hashtbl.create 8 in
+  let turn = ref 0 in
   let res = List.map (fun opt ->
+      incr turn;
       let name, a = split_op opt in
       let x = parse_op name a in
       let expect = sstep veq heq vdefault !s x in
       (match expect with Some (s', _) -> s := s' | None -> ());
       if is_async && async_subscriber_double_count !o x && not (List.mem "async_subscriber_double_count" !classes) then
         classes := "async_subscriber_double_count" :: !classes;
-      match (if is_async then astep veq heq vdefault !o x else step veq heq vdefault !o x) with
+      (* the waker this call is made with *)
+      let wid = (match x with
+          | SPoll k when not is_async ->
+            let k = n2i k in
+            (* only a poll that is possible is made at all (the harness skips the others) *)
+            let possible = (match step veq heq vdefault !o x with Panic -> false | Ok _ -> true) in
+            if !turn mod 4 = 3 && Hashtbl.mem cur_wid k && possible then begin
+              Hashtbl.replace cur_wid k !next_wid; incr next_wid end;
+            (try Hashtbl.find cur_wid k with Not_found -> 0)
+          | _ -> 0) in
+      let woken_objs = ref None in
+      let stepped =
+        if is_async then astep veq heq vdefault !o x
+        else (match wstep veq heq vdefault { w_obs = !o; w_ids = !w_ids } x (i2n wid) with
+            | Panic -> Panic
+            | Ok ((s', r), wo) ->
+              w_ids := s'.w_ids;
+              woken_objs := Some wo;
+              (* the plain woken list of Obs.step, for the bookkeeping below *)
+              (match step veq heq vdefault !o x with
+               | Ok ((_, _), w) -> Ok ((s'.w_obs, r), w)
+               | Panic -> Panic)) in
+      match stepped with
       | Panic -> "SKIP" ^ (if expect <> None then " ok:spec=0" else "")
       | Ok ((o', r), w) ->
         let ver_changed = (o'.ver <> !o.ver) in
         o := o';
+        (* a new subscriber gets its own waker object *)
+        (match r with
+         | OSubId k when not is_async -> Hashtbl.replace cur_wid (n2i k) !next_wid; incr next_wid
+         | _ -> ());
         let text = show_out name r in
         let before = Hashtbl.copy registered in
         List.iter (fun k -> Hashtbl.replace registered (n2i k) false) w;
@@ -83,7 +117,13 @@ let run_case (case : string) : string =
         let expect_text = (match expect with Some (_, r') -> show_out name r' | None -> "") in
         let counts_bad = spec_bad && name = "counts" in
         let end_bad = spec_bad && (name = "upgrade" || (name = "poll" && (expect_text = "N" || text = "N"))) in
-        text ^ show_wakes w ^ (if spec_bad then " ok:spec=0" else "") ^ (if counts_bad then " ok:counts=0" else "")
+        let wakes_text = (match !woken_objs with
+            | Some wo when wo <> [] ->
+              let l = List.sort compare (List.map (fun (k, i) -> (n2i k, n2i i)) wo) in
+              " w" ^ String.concat "," (List.map (fun (k, i) -> Printf.sprintf "%d:%d" k i) l)
+            | Some _ -> ""
+            | None -> show_wakes w) in
+        text ^ wakes_text ^ (if spec_bad then " ok:spec=0" else "") ^ (if counts_bad then " ok:counts=0" else "")
         ^ (if end_bad then " ok:endspec=0" else "") ^ (if wake_bad then " ok:wake=0" else "")) ops in
   String.concat " ; " res ^ String.concat "" (List.map (fun c -> " class=" ^ c) !classes)
 
